@@ -848,6 +848,22 @@ func (c *fsClient) Call(x *Exec, st *State, fr *Frame, site ssa.CallInstruction,
 			if os.Getenv("RSA_DEBUG") == "14" {
 				fmt.Fprintf(os.Stderr, "NewWriter cfg=%s hashid=%v\n", args[1].key, hid)
 			}
+			// CONFIG-SAME: every option of the writer's Config is the handle's
+			cfgT := c.p.namedType("Config").Underlying().(*types.Struct)
+			diff := ""
+			for i := 0; i < cfgT.NumFields(); i++ {
+				fa := fieldAux(c.p.namedType("Config"), i)
+				v := x.load(st, mk("field", fa, nil, args[1]), nil)
+				same := v != nil && v.Op == "init" && len(v.Args) > 0 && v.Args[0].Op == "field" && v.Args[0].Aux == fa && v.Args[0].Args[0].Op == "field" && v.Args[0].Args[0].Aux == "Stack.cfg"
+				if !same && diff == "" {
+					diff = cfgT.Field(i).Name() + " = " + fmt.Sprint(v)
+				}
+			}
+			if diff == "" {
+				c.okay("CONFIG-SAME", role+" / tables are written with the handle's configuration", "every field of the writer's Config is the handle's")
+			} else {
+				c.violate(st, "CONFIG-SAME", role+" / tables are written with the handle's configuration", pos, "a table written for this stack gets a configuration that differs from the handle's ("+diff+"): records rewritten by a compaction can be normalised, validated or laid out differently from how they were accepted")
+			}
 			if ok {
 				c.okay("HASH-TYPE", role+" / new table is written with the stack's hash id", "the writer's Config.HashID is the handle's configured hash id")
 			} else {
